@@ -27,8 +27,9 @@ def run(ctx):
     s = sym.summarize(repo, f.qualname)
     pos, layers = T.sym(f.params[0]), T.sym(f.params[1])
     rng = T.call("numpy.arange", (T.neg(layers), T.add(layers, T.num(1))))
-    want = ("map", T.seq((T.add(T.idx(pos, T.num(0)), T.idx(B0, T.num(0))), T.add(T.idx(pos, T.num(1)), T.idx(B0, T.num(1))))), B0,
-            T.call("itertools.product", (rng, rng)), T.TRUE)
+    # canonical form of a product / a double loop / a nested comprehension: for i in rng: for k in rng
+    B1 = ("bv", 1)
+    want = ("flatmap", ("map", T.seq((T.add(T.idx(pos, T.num(0)), B0), T.add(T.idx(pos, T.num(1)), B1))), B1, rng, T.TRUE), B0, rng, T.TRUE)
     ctx.clause("the window is the (2*layers+1)^2 block of pixels centred on the position")
     rules.decide_equal(ctx, "FORM", f"{f.qualname} / FORM / offsets arange(-layers, layers+1) x itself added per axis", ctx.where(f), s.ret(), want, "window")
 
